@@ -1,7 +1,7 @@
 """C03 - component listings mirror exactly the components of agents in the model."""
 from hypothesis import strategies as st
 
-from ECAgent.Core import Agent, Component, Model
+from ECAgent.Core import Agent, Component, Environment, Model
 from ECAgent.Environments import DiscreteWorld, GridWorld, LineWorld, SpaceWorld, PositionComponent
 from vf.engine import Violation, InvalidCase
 from vf.fixtures import CompA, CompB, CompC, CompF, check, sized_lists, wone_of
@@ -43,18 +43,26 @@ def configure(live):
     LIVE.update(live)
 
 
-def make_model(kind):
+def make_model(kind, late=None):
+    """late (a dict) collects the world instead of installing it: the initial population then joins the world BEFORE it is
+    handed to set_environment (a prepared world; the agents in it are in the model's environment from that moment on)"""
     m = Model()
     if kind == "space":
-        m.set_environment(SpaceWorld(m, 8.0, 6.0, 4.0))
+        w = SpaceWorld(m, 8.0, 6.0, 4.0)
     elif kind == "discrete":
-        m.set_environment(DiscreteWorld(m, 4, 3, 2))
+        w = DiscreteWorld(m, 4, 3, 2)
     elif kind == "line":
-        m.set_environment(LineWorld(m, 6))
+        w = LineWorld(m, 6)
     elif kind == "grid":
-        m.set_environment(GridWorld(m, 5, 4))
-    elif kind != "plain":
+        w = GridWorld(m, 5, 4)
+    elif kind == "plain":
+        w = Environment(m) if late is not None else None
+    else:
         raise InvalidCase(kind)
+    if late is not None:
+        late[id(m)] = w
+    elif w is not None:
+        m.set_environment(w)
     return m
 
 
@@ -73,7 +81,11 @@ def run_case(case):
     kinds = [KINDS[int(k) % len(KINDS)] for k in case["models"]][:3]
     if not kinds:
         raise InvalidCase("no models")
-    models = [make_model(k) for k in kinds]
+    late = {} if case.get("late_install") and case.get("init") else None
+    models = [make_model(k, late) for k in kinds]
+
+    def env_of(mi_):
+        return late[id(models[mi_])] if late else models[mi_].environment
     nm = len(models)
     PER = max(1, min(int(case.get("per_model", 5)), 160))       # agents per model (large cases cross size thresholds)
     agents = [[Agent(f"m{mi}a{ai}", models[mi]) for ai in range(PER)] for mi in range(nm)]
@@ -158,6 +170,13 @@ def run_case(case):
         if spec.get("joined"):
             prologue.append({"op": "join", "m": mi0, "a": ai0, "pos": spec.get("pos", [0, 0, 0]), "foreign": 0})
     for k, op in enumerate(prologue + list(case["ops"])):
+        if late and k == len(prologue):
+            for m_ in models:
+                m_.set_environment(late[id(m_)])
+            late = None
+            labels.add("populated-world-installed")
+            if verify_on:
+                verify("after installing the prepared worlds")
         kind = op["op"]
         mi = int(op.get("m", 0)) % nm
         a = agents[mi][int(op.get("a", 0)) % PER]
@@ -241,7 +260,7 @@ def run_case(case):
             if op.get("foreign") and nm > 1:
                 target = (mi + 1 + int(op.get("foreign")) % (nm - 1)) % nm
                 labels.add("foreign-join")
-            env = models[target].environment
+            env = env_of(target)
             pos = in_range_pos(env, op.get("pos", (0, 0, 0)))
             if op.get("oob") and isinstance(env, SpaceWorld):
                 axes = [ax for ax, e in enumerate((env.width, env.height, env.depth)) if e > 0]
@@ -286,10 +305,38 @@ def run_case(case):
             has_left.add(id(a))
             for t in own:
                 via_join.discard(id(comp_of[(id(a), t)]))
+        elif kind == "stray_deregister":
+            # a redundant explicit deregister_component: for a component that is not registered with that model (its agent has
+            # left / never joined / lives in another model). Whether the call raises is the scheduler's business (the tree
+            # raises KeyError); the listings must be what they were
+            mj = (mi + int(op.get("other", 0))) % nm
+            pool = [(x, tt) for x in flat for tt in TYPES if (id(x), tt) in comp_of and where_is.get(id(x)) != mj]
+            if not pool:
+                continue
+            x, tt = pool[int(op.get("k", 0)) % len(pool)]
+            try:
+                models[mj].systems.deregister_component(comp_of[(id(x), tt)])
+            except KeyError:
+                pass
+            except Exception as e:
+                raise Violation("stray-deregister-wrong-error", f"{where}: deregistering a component that is not registered raised {type(e).__name__}: {e}")
+            labels.add("stray-deregister")
+        elif kind == "reinstall":
+            # the model's environment is handed to set_environment again (idempotent use of a documented call, e.g. from
+            # a set-up routine that runs twice): the agents in it are still in the model's environment
+            try:
+                models[mi].set_environment(models[mi].environment)
+            except Exception as e:
+                raise Violation("reinstall-raised", f"{where}: set_environment(current environment) raised {type(e).__name__}: {e}")
+            labels.add("environment-installed-again")
         else:
             raise InvalidCase(op)
-        if verify_on:
+        if verify_on and not late:
             verify(where)
+    if late:
+        for m_ in models:
+            m_.set_environment(late[id(m_)])
+        late = None
     verify("at the end")
     if PER > 64:
         labels.add("population>64")
@@ -313,6 +360,8 @@ def strategy(tier):
         st.fixed_dictionaries({"op": st.just("leave"), "m": m, "a": a}),
         st.fixed_dictionaries({"op": st.just("leave"), "k": k}),
         st.fixed_dictionaries({"op": st.just("leave"), "k": k}),
+        st.fixed_dictionaries({"op": st.just("reinstall"), "m": m}),
+        st.fixed_dictionaries({"op": st.just("stray_deregister"), "m": m, "other": st.integers(0, 2), "k": k}),
     )
     init = st.fixed_dictionaries({"comps": st.sampled_from([0, 0, 1, 1, 1, 2, 3, 4, 5, 7, 8, 9, 12, 15, 16, 17, 24, 31]), "joined": st.booleans(), "pos": pos})
     from vf.fixtures import near_pow2
@@ -331,5 +380,6 @@ def strategy(tier):
 
 def _small(m, a, t, paired, k, pos, foreign, attach, join_abs, join_rel, ops, init):
     return st.fixed_dictionaries({"models": st.lists(st.integers(0, 4), min_size=2, max_size=3),
+                                  "late_install": st.sampled_from([False, False, False, True]),
                                   "init": wone_of(st.just([]), st.lists(init, min_size=15, max_size=15)),
                                   "ops": wone_of(st.lists(ops, min_size=1, max_size=12), sized_lists(ops, 8, 45), sized_lists(ops, 8, 45))})
